@@ -67,7 +67,7 @@ def registry():
         'blocks': enc_blocks('old(out)', 'consumed()'),
         'chain': 'all(t < bl() ==> iv[t] == (old(cbcState.iv[t]) if consumed() == 0 else old(out)[consumed() - bl() + t]) for t in range(16))'})
     R.fn('CBC_encrypt', regions=SHAPE, configs=cfgs, cost=60, quick=QUICK, modifies=['out', 'cbcState.iv'], ensures=enc, lemmas=LEM,
-         loops={0: dict(invariants=inv, decreases='data_len', split={'blocks': ('b', 'consumed() - bl()')}, lemmas={
+         loops={0: dict(invariants=inv, decreases='data_len', split={'blocks': ('b', 'consumed() - bl()', 'b + bl() <= consumed() - bl()')}, lemmas={
              'new_block': 'all(old(out)[consumed() - bl() + t] == (ekx(atold(old(in) + consumed() - bl()), atold(cbcState.iv), bl(), t) if consumed() == bl() else '
                           'ekx(atold(old(in) + consumed() - bl()), old(out) + consumed() - 2 * bl(), bl(), t)) for t in range(bl()))',
              'earlier': EARLIER})})
@@ -84,7 +84,7 @@ def registry():
         'blocks': dec_blocks('old(out)', 'consumed()'),
         'chain': 'all(t < bl() ==> iv[t] == (old(cbcState.iv[t]) if consumed() == 0 else oldmem(old(in), consumed() - bl() + t)) for t in range(16))'})
     R.fn('CBC_decrypt', regions=SHAPE, configs=cfgs, cost=60, quick=QUICK, modifies=['out', 'cbcState.iv'], ensures=dec, lemmas=LEM,
-         loops={0: dict(invariants=inv, decreases='data_len', split={'blocks': ('b', 'consumed() - bl()')}, lemmas={
+         loops={0: dict(invariants=inv, decreases='data_len', split={'blocks': ('b', 'consumed() - bl()', 'b + bl() <= consumed() - bl()')}, lemmas={
              'new_block': 'all(old(out)[consumed() - bl() + t] == dk(atold(old(in) + consumed() - bl()), bl(), t) ^ '
                           '(old(cbcState.iv[t]) if consumed() == bl() else oldmem(old(in), consumed() - 2 * bl() + t)) for t in range(bl()))',
              'earlier': EARLIER})})
